@@ -161,6 +161,7 @@ func buildAlphabet() []*opDef {
 	ops = append(ops, shadowOps()...)
 	ops = append(ops, errorCallOps()...)
 	ops = append(ops, rebindOps()...)
+	ops = append(ops, argumentShapeOps()...)
 	for _, o := range ops {
 		if o.form != nil {
 			o.src = o.form.render()
@@ -280,11 +281,74 @@ func rebindOps() []*opDef {
 		// re-import of the language package; leaves at lengths 3-4 and the
 		// later-operations of every rebinding shortcut
 		&opDef{Name: "load:q:use-package:p", Class: "import-from-other-package", form: inP("q", nCall("use-package", nQS("p"))), minLen: 3, maxLenQ: 4, maxLenT: 4, leafFrom: 1},
+		&opDef{Name: "load:q:use-package:user", Class: "import-from-other-package", form: inP("q", nCall("use-package", nQS("user"))), minLen: 3, maxLenQ: 4, maxLenT: 4, leafFrom: 1},
 		&opDef{Name: "load:p:use-package:q", Class: "import-from-other-package", form: inP("p", nCall("use-package", nQS("q"))), tier: 1, minLen: 3, maxLenT: 4, leafFrom: 1},
 		&opDef{Name: "use-package:lisp", Class: "use-package-language", form: nCall("use-package", nQS("lisp")), minLen: 3, maxLenQ: 4, maxLenT: 4, leafFrom: 1},
 	)
 	return ops
 }
+
+// argumentShapeOps: the ARGUMENT SHAPES export, use-package and in-package
+// accept (probed on the pinned tree): names as symbols or strings; for export
+// also lists of names, nested to any depth, computed lists, the empty list and
+// no argument at all, in every order.  The model: the export set grows by the
+// union of all names mentioned at any depth.  Every shape is a leaf operation
+// (the export sets themselves are reached through export:a / export:f /
+// export:m anyway) followed, as separate later operations, by imports of the
+// current package from another package; the export list is read back through
+// Package.Externals after the shape itself.
+//
+// Unspecified and therefore outside the alphabet: elements that are neither
+// symbol, string nor list ((export 1) is an error; (export '(a 1) 'f) exports a
+// and f and swallows the inner error; (export 'a 1 'f) exports a and then
+// fails), keywords as export names, a list as a package designator
+// ((use-package '(p)) and (in-package '(p)) are errors), docstring arguments.
+func argumentShapeOps() []*opDef {
+	q := func(kids ...*node) *node { return nQ(nL(kids...)) } // '(...)
+	sy := nS
+	var ops []*opDef
+	shape := func(name string, tier int, args ...*node) {
+		ops = append(ops, &opDef{Name: "export-shape:" + name, Class: "export-shape:" + name,
+			form: nCall("export", args...), tier: tier, maxLenQ: 3, maxLenT: 4, leaf: true, later: true, laterSet: shapeImports, prog: true})
+	}
+	shape("string", 0, nT("a"))
+	shape("two-symbols", 0, nQS("a"), nQS("f"))
+	shape("list", 0, q(sy("a"), sy("f")))
+	shape("symbol-then-list", 0, nQS("a"), q(sy("f"), sy("m")))
+	shape("list-then-symbol", 0, q(sy("a"), sy("f")), nQS("m"))
+	shape("list-in-the-middle", 0, nQS("a"), q(sy("f")), nQS("m"))
+	shape("two-lists", 0, q(sy("a")), q(sy("f")))
+	shape("two-lists-then-symbol", 0, q(sy("a")), q(sy("f")), nQS("m"))
+	shape("nested-list-then-sibling-inside", 0, q(nL(sy("a")), sy("f")))
+	shape("nested-list-then-sibling-outside", 0, q(nL(sy("a")), sy("f")), nQS("m"))
+	shape("deeply-nested", 0, q(sy("a"), nL(sy("f"), nL(sy("m")))))
+	shape("empty-list", 0, q())
+	shape("empty-list-then-symbol", 0, q(), nQS("a"))
+	shape("symbol-then-empty-list-then-symbol", 1, nQS("a"), q(), nQS("f"))
+	shape("no-arguments", 0)
+	shape("duplicate-symbols", 0, nQS("a"), nQS("a"))
+	shape("duplicates-in-list-then-symbol", 0, q(sy("a"), sy("a")), nQS("a"))
+	shape("strings-in-list-then-string", 0, q(nT("a"), sy("f")), nT("m"))
+	shape("symbol-string-list", 0, nQS("a"), nT("f"), q(sy("m")))
+	shape("computed-list-then-symbol", 0, nCall("list", nQS("a"), nQS("f")), nQS("m"))
+	shape("string-then-list", 1, nT("a"), q(sy("f")))
+	shape("list-then-list-of-list", 1, q(sy("a")), q(nL(sy("f"))), nQS("m"))
+	shape("symbol-list-list", 1, nQS("m"), q(sy("a")), q(sy("f")))
+
+	des := func(name, class string, tier int, form *node) {
+		ops = append(ops, &opDef{Name: name, Class: class, form: form, tier: tier, maxLenQ: 3, maxLenT: 4, leaf: true, prog: true})
+	}
+	des("use-package-shape:string", "use-package-shape:string", 0, nCall("use-package", nT("p")))
+	des("use-package-shape:two-packages", "use-package-shape:two-packages", 0, nCall("use-package", nQS("p"), nQS("q")))
+	des("use-package-shape:two-packages-reversed", "use-package-shape:two-packages", 1, nCall("use-package", nQS("q"), nT("p")))
+	des("use-package-shape:no-arguments", "use-package-shape:no-arguments", 0, nCall("use-package"))
+	des("in-package-shape:string", "in-package-shape:string", 0, nCall("in-package", nT("p")))
+	return ops
+}
+
+// shapeImports follow every export shape: the current package (user, p or q)
+// imported from another package.
+var shapeImports = []string{"load:q:use-package:user", "load:q:use-package:p", "load:p:use-package:q", "use-package:p", "use-package:q"}
 
 // importOps follow every rebinding shortcut as a separate later operation
 // (those that are not in the tier's alphabet are skipped).
